@@ -966,6 +966,24 @@ class BTreePage(Page):
                     next_freeblock_offset,
                 )
                 self.freeblocks.append(freeblock)
+                if (
+                    freeblock.next_freeblock_offset
+                    and freeblock.next_freeblock_offset <= freeblock.start_offset
+                ):
+                    # Freeblocks are chained in ascending order; anything else would never terminate
+                    log_message = (
+                        "The next freeblock offset: {} does not follow the freeblock at offset: {} "
+                        "for b-tree page: {} in page version: {} for version: {}."
+                    )
+                    log_message = log_message.format(
+                        freeblock.next_freeblock_offset,
+                        freeblock.start_offset,
+                        self.number,
+                        self.page_version_number,
+                        self.version_number,
+                    )
+                    self._logger.error(log_message)
+                    raise BTreePageParsingError(log_message)
                 next_freeblock_offset = freeblock.next_freeblock_offset
                 self.calculated_freeblock_total_byte_size += freeblock.byte_size
                 freeblock_index += 1
